@@ -210,12 +210,23 @@ pub fn operation(p: &mut Parser<'_>, mut skip: Skip) -> Result<Option<Skip>> {
             stack.push((open.clone(), priority, extra));
         }
 
-        while let Some(prev) = stack.last_mut() {
-            match priority.cmp(&prev.1) {
+        let mut cur = cur;
+
+        loop {
+            let ordering = match stack.last() {
+                Some(prev) => priority.cmp(&prev.1),
+                None => Ordering::Greater,
+            };
+
+            match ordering {
                 Ordering::Less => {
-                    p.close_at(&prev.0, OPERATION)?;
-                    *prev = (prev.0.clone(), priority, extra);
-                    continue;
+                    // Close the operation with the higher priority, what
+                    // follows continues the operation below it or starts a new
+                    // one with the closed operation as its first operand.
+                    if let Some((c, _, _)) = stack.pop() {
+                        p.close_at(&c, OPERATION)?;
+                        cur = c;
+                    }
                 }
                 Ordering::Greater => {
                     stack.push((cur, priority, extra));
